@@ -178,6 +178,9 @@ func init() {
 				gp.MaxBatches = 8
 				cfg.MaxPreMergerBatches = r.Pick(4, 10)
 			}
+			if idx%8 == 5 {
+				eng.PartialCompactionProfile(r, &cfg, &gp)
+			}
 			return eng.GenProgram(r, "C01", cfg, gp)
 		},
 		assumptions: []string{"keys unique per batch (documented API requirement)", "Snapshot taken with no ExecuteBatch in flight (director is single-threaded)"},
@@ -220,6 +223,9 @@ func init() {
 				cfg.IndexMaxBytes = r.Pick(300, 1400, 5000)
 				cfg.IndexMinKeyBytes = 1
 			}
+			if idx%4 == 2 {
+				eng.PartialCompactionProfile(r, &cfg, &gp)
+			}
 			p := eng.GenProgram(r, "C04", cfg, gp)
 			// One case in five reopens immediately after Close, racing the
 			// closed instance's asynchronous file removals.
@@ -243,6 +249,9 @@ func init() {
 				gp.WideKeys = 100 + r.Intn(400)
 				gp.MaxBatches = 10
 			}
+			if idx%3 == 1 {
+				eng.PartialCompactionProfile(r, &cfg, &gp)
+			}
 			return eng.GenProgram(r, "C07", cfg, gp)
 		},
 		minUnits: 20,
@@ -257,6 +266,9 @@ func init() {
 			cfg := eng.GenConfig(r, pickBacking(r, "none", "store", "store", "store", "custom"), true)
 			gp := eng.GenParams{MinBatches: 3, MaxBatches: 16, NKeys: 4 + r.Intn(6), Park: true, Reopen: true, Merge: true,
 				Children: cfg.Backing != "custom" && r.Chance(1, 3), Idle: true, QuietPct: 30}
+			if idx%5 == 2 {
+				eng.PartialCompactionProfile(r, &cfg, &gp)
+			}
 			return eng.GenProgram(r, "C08", cfg, gp)
 		},
 		minUnits: 20,
@@ -292,6 +304,9 @@ func init() {
 			cfg := eng.GenConfig(r, pickBacking(r, "none", "store", "store", "store"), false)
 			gp := eng.GenParams{MinBatches: 4, MaxBatches: 16, NKeys: 4 + r.Intn(5), Park: r.Chance(1, 2), Reopen: true,
 				Children: true, Nested: r.Chance(1, 2), ChildOnlyPct: 25, DelOnlyPct: 12, Idle: true, FinalReopen: r.Chance(1, 2), QuietPct: 25}
+			if idx%4 == 1 {
+				eng.PartialCompactionProfile(r, &cfg, &gp)
+			}
 			return eng.GenProgram(r, "C11", cfg, gp)
 		},
 		minUnits: 20,
